@@ -8,6 +8,7 @@ import (
 	"path/filepath"
 
 	"github.com/cube2222/octosql/config"
+	"github.com/cube2222/octosql/helpers/atomicfile"
 	"github.com/cube2222/octosql/helpers/verifhook"
 )
 
@@ -53,8 +54,8 @@ func saveFileExtensionHandlers(handlers map[string]string) error {
 	if err != nil {
 		return fmt.Errorf("couldn't json-encode file extension handlers: %w", err)
 	}
-	verifhook.TornWrite("extensions:write-file-extension-handlers", octosqlFileExtensionHandlersFile, data)
-	if err := os.WriteFile(octosqlFileExtensionHandlersFile, data, 0644); err != nil {
+	verifhook.TornWrite("extensions:write-file-extension-handlers", atomicfile.TempPath(octosqlFileExtensionHandlersFile), data)
+	if err := atomicfile.WriteFile(octosqlFileExtensionHandlersFile, data, 0644); err != nil {
 		return fmt.Errorf("couldn't write file extension handlers to file: %w", err)
 	}
 	return nil
